@@ -1,0 +1,295 @@
+//go:build verif
+
+package main
+
+import (
+	"bufio"
+	"fmt"
+	"go/ast"
+	"go/types"
+	"os"
+	"path/filepath"
+	"regexp"
+	"sort"
+)
+
+// rtgraph <tiny 0|1> <hex output path> (after a "load" of any module): type-checks the runtime package the way garble
+// does, applies the real stripRuntime to each file (when tiny=1), and writes the reference graph of the result:
+//
+//	N <node> <file> <statements>   a function, method (Type.name) or function literal (parent$k); -1 = no body (assembly)
+//	C <node> <callee node>         static call of a function or of a method on a concrete receiver
+//	R <node> <node>                function or method referenced without being called (address taken)
+//	D <node> <method name>         call (or method value) through an interface
+//	I <node>                       call of a function value (variable, field, result, element)
+//	L <node> <literal node>        the function literal is created here
+//	LA <node> <literal> <callee>   ... as a direct argument of a static call of <callee>
+//	P <node> <print|println>       a remaining call of a print builtin
+//	W <node> <callee> <first arg>  a call of write / write1 with its first argument's source text
+//	X <node> <pkg.func>            call into another package
+//	A <symbol>                     Go symbol referenced from the package's assembly files
+//	S <file> <func>                reported as stripped by stripRuntime
+//
+// The answer line is "ok <files> <nodes> <validateDirectRuntimeStripping outcome>".
+var _ = func() bool {
+	verifOps["rtgraph"] = func(a []string) string {
+		tiny := verifBool(a[0])
+		outPath := string(verifUnhex(a[1]))
+		lpkg, ok := sharedCache.ListedPackages.get("runtime")
+		if !ok {
+			return "!err runtime-not-listed"
+		}
+		files, err := parseFiles(lpkg, lpkg.Dir, lpkg.CompiledGoFiles, false)
+		if err != nil {
+			return "!err " + verifHex([]byte(err.Error()))
+		}
+		_, info, err := typecheck(lpkg.ImportPath, files, importerForPkg(lpkg), true)
+		if err != nil {
+			return "!err " + verifHex([]byte(err.Error()))
+		}
+		f, err := os.Create(outPath)
+		if err != nil {
+			return "!err " + verifHex([]byte(err.Error()))
+		}
+		defer f.Close()
+		w := bufio.NewWriter(f)
+		defer w.Flush()
+		stripped := make(map[string]map[string]bool)
+		g := &verifRtGraph{w: w, info: info}
+		for i, file := range files {
+			name := filepath.Base(lpkg.CompiledGoFiles[i])
+			if tiny {
+				stripped[name] = stripRuntime(name, file)
+				var l []string
+				for fn := range stripped[name] {
+					l = append(l, fn)
+				}
+				sort.Strings(l)
+				for _, fn := range l {
+					fmt.Fprintf(w, "S %s %s\n", name, fn)
+				}
+			}
+			for _, decl := range file.Decls {
+				fd, ok := decl.(*ast.FuncDecl)
+				if !ok {
+					g.body(name, "init$"+name, decl)
+					continue
+				}
+				node := fd.Name.Name
+				if obj, ok := info.Defs[fd.Name].(*types.Func); ok {
+					node = verifFuncNode(obj)
+				}
+				if fd.Body == nil {
+					fmt.Fprintf(w, "N %s %s -1\n", node, name)
+					g.nodes++
+					continue
+				}
+				g.body(name, node, fd.Body)
+			}
+		}
+		rx := regexp.MustCompile(`(?:runtime)?·([A-Za-z_][A-Za-z0-9_]*)(?:<ABIInternal>|<ABI0>)?\(SB\)`)
+		seen := map[string]bool{}
+		for _, s := range lpkg.SFiles {
+			p := s
+			if !filepath.IsAbs(p) {
+				p = filepath.Join(lpkg.Dir, p)
+			}
+			data, err := os.ReadFile(p)
+			if err != nil {
+				return "!err " + verifHex([]byte(err.Error()))
+			}
+			for _, m := range rx.FindAllSubmatch(data, -1) {
+				seen[string(m[1])] = true
+			}
+		}
+		var syms []string
+		for s := range seen {
+			syms = append(syms, s)
+		}
+		sort.Strings(syms)
+		for _, s := range syms {
+			fmt.Fprintf(w, "A %s\n", s)
+		}
+		valid := "valid"
+		if tiny {
+			func() {
+				defer func() {
+					if r := recover(); r != nil {
+						valid = "invalid:" + verifHex([]byte(fmt.Sprint(r)))
+					}
+				}()
+				validateDirectRuntimeStripping(stripped)
+			}()
+		}
+		return fmt.Sprintf("ok %d %d %s", len(files), g.nodes, valid)
+	}
+	return true
+}()
+
+func verifFuncNode(f *types.Func) string {
+	f = f.Origin()
+	sig := f.Signature()
+	if recv := sig.Recv(); recv != nil {
+		t := recv.Type()
+		if p, ok := t.(*types.Pointer); ok {
+			t = p.Elem()
+		}
+		if n, ok := types.Unalias(t).(*types.Named); ok {
+			return n.Obj().Name() + "." + f.Name()
+		}
+		return "?." + f.Name()
+	}
+	return f.Name()
+}
+
+type verifRtGraph struct {
+	w     *bufio.Writer
+	info  *types.Info
+	nodes int
+}
+
+func (g *verifRtGraph) body(file, node string, body ast.Node) {
+	w, info := g.w, g.info
+	stmts := 0
+	if b, ok := body.(*ast.BlockStmt); ok {
+		stmts = len(b.List)
+	}
+	fmt.Fprintf(w, "N %s %s %d\n", node, file, stmts)
+	g.nodes++
+	lits := 0
+	called := map[ast.Expr]bool{}
+	litArgOf := map[*ast.FuncLit]string{} // literal passed directly to a statically known runtime function
+	staticCallee := func(e ast.Expr) string {
+		switch e := e.(type) {
+		case *ast.Ident:
+			if obj, ok := info.Uses[e].(*types.Func); ok && obj.Pkg() != nil && obj.Pkg().Path() == "runtime" {
+				return verifFuncNode(obj)
+			}
+		case *ast.SelectorExpr:
+			if sel := info.Selections[e]; sel != nil && !types.IsInterface(sel.Recv()) {
+				if fn, ok := sel.Obj().(*types.Func); ok {
+					return verifFuncNode(fn)
+				}
+			}
+		}
+		return ""
+	}
+	ref := func(kind string, e ast.Expr) bool {
+		// e is an identifier or selector naming a function or method; returns whether it was one
+		switch e := e.(type) {
+		case *ast.Ident:
+			switch obj := info.Uses[e].(type) {
+			case *types.Func:
+				if obj.Pkg() != nil && obj.Pkg().Path() != "runtime" {
+					fmt.Fprintf(w, "X %s %s.%s\n", node, obj.Pkg().Path(), obj.Name())
+				} else {
+					fmt.Fprintf(w, "%s %s %s\n", kind, node, verifFuncNode(obj))
+				}
+				return true
+			case *types.Builtin:
+				if kind == "C" && (e.Name == "print" || e.Name == "println") {
+					fmt.Fprintf(w, "P %s %s\n", node, e.Name)
+				}
+				return true
+			case *types.TypeName:
+				return true
+			}
+		case *ast.SelectorExpr:
+			if sel := info.Selections[e]; sel != nil {
+				fn, ok := sel.Obj().(*types.Func)
+				if !ok {
+					return false // a field of function type
+				}
+				if types.IsInterface(sel.Recv()) {
+					fmt.Fprintf(w, "D %s %s\n", node, fn.Name())
+				} else {
+					fmt.Fprintf(w, "%s %s %s\n", kind, node, verifFuncNode(fn))
+				}
+				return true
+			}
+			switch obj := info.Uses[e.Sel].(type) {
+			case *types.Func:
+				fmt.Fprintf(w, "X %s %s.%s\n", node, obj.Pkg().Path(), obj.Name())
+				return true
+			case *types.TypeName, *types.Builtin:
+				return true
+			}
+		}
+		return false
+	}
+	var visit func(n ast.Node) bool
+	visit = func(n ast.Node) bool {
+		switch n := n.(type) {
+		case *ast.FuncLit:
+			lits++
+			child := fmt.Sprintf("%s$%d", node, lits)
+			if callee := litArgOf[n]; callee != "" {
+				fmt.Fprintf(w, "LA %s %s %s\n", node, child, callee)
+			} else {
+				fmt.Fprintf(w, "L %s %s\n", node, child)
+			}
+			g.body(file, child, n.Body)
+			return false
+		case *ast.CallExpr:
+			fun := ast.Unparen(n.Fun)
+			switch f := fun.(type) {
+			case *ast.IndexExpr:
+				fun = ast.Unparen(f.X)
+			case *ast.IndexListExpr:
+				fun = ast.Unparen(f.X)
+			}
+			if tv, ok := info.Types[n.Fun]; ok && tv.IsType() {
+				break // a conversion
+			}
+			if id, ok := fun.(*ast.Ident); ok && (id.Name == "write" || id.Name == "write1") {
+				arg := "expr"
+				if len(n.Args) > 0 {
+					switch a0 := n.Args[0].(type) {
+					case *ast.BasicLit:
+						arg = a0.Value
+					case *ast.Ident:
+						arg = a0.Name
+					}
+				}
+				fmt.Fprintf(w, "W %s %s %s\n", node, id.Name, arg)
+			}
+			if callee := staticCallee(fun); callee != "" {
+				for _, arg := range n.Args {
+					if lit, ok := ast.Unparen(arg).(*ast.FuncLit); ok {
+						litArgOf[lit] = callee
+					}
+				}
+			}
+			switch fun.(type) {
+			case *ast.FuncLit:
+				// called on the spot: the L edge
+			case *ast.Ident, *ast.SelectorExpr:
+				called[fun] = true
+				if !ref("C", fun) {
+					fmt.Fprintf(w, "I %s\n", node)
+				}
+			default:
+				fmt.Fprintf(w, "I %s\n", node)
+			}
+		case *ast.SelectorExpr:
+			if !called[n] {
+				if sel := info.Selections[n]; sel != nil && sel.Kind() != types.FieldVal {
+					ref("R", n)
+				} else if sel == nil {
+					if _, ok := info.Uses[n.Sel].(*types.Func); ok {
+						ref("R", n)
+					}
+				}
+			}
+			ast.Inspect(n.X, visit)
+			return false
+		case *ast.Ident:
+			if !called[n] {
+				if _, ok := info.Uses[n].(*types.Func); ok {
+					ref("R", n)
+				}
+			}
+		}
+		return true
+	}
+	ast.Inspect(body, visit)
+}
